@@ -712,6 +712,16 @@ func (t *Target) updateMeta(clients func(*ctree.Leaf)) {
 	t.generateMetaUpdates(clients)
 }
 
+// metaLeafValue returns the typed value stored in a metadata leaf, or nil if
+// v is not a notification carrying one.
+func metaLeafValue(v interface{}) interface{} {
+	n, ok := v.(*pb.Notification)
+	if !ok || len(n.GetUpdate()) == 0 {
+		return nil
+	}
+	return n.GetUpdate()[0].GetVal().GetValue()
+}
+
 func (t *Target) generateMetaUpdates(clients func(*ctree.Leaf)) {
 	for value := range metadata.TargetBoolValues {
 		if t.excludedMeta.Contains(value) {
@@ -723,6 +733,11 @@ func (t *Target) generateMetaUpdates(clients func(*ctree.Leaf)) {
 		}
 		path := metadata.Path(value)
 		prev := t.t.GetLeafValue(path)
+		if _, ok := metaLeafValue(prev).(*pb.TypedValue_BoolVal); !ok {
+			// Not a well-formed leaf of this type (it may have been written
+			// by a remote peer): regenerate it.
+			prev = nil
+		}
 		if prev == nil || prev.(*pb.Notification).Update[0].Val.Value.(*pb.TypedValue_BoolVal).BoolVal != v {
 			noti := metaNotiBool(t.name, value, v)
 			if n, _ := t.gnmiUpdate(noti); n != nil {
@@ -743,6 +758,11 @@ func (t *Target) generateMetaUpdates(clients func(*ctree.Leaf)) {
 		}
 		path := metadata.Path(value)
 		prev := t.t.GetLeafValue(path)
+		if _, ok := metaLeafValue(prev).(*pb.TypedValue_IntVal); !ok {
+			// Not a well-formed leaf of this type (it may have been written
+			// by a remote peer): regenerate it.
+			prev = nil
+		}
 		if prev == nil || prev.(*pb.Notification).Update[0].Val.Value.(*pb.TypedValue_IntVal).IntVal != v {
 			noti := metaNotiInt(t.name, value, v)
 			if n, _ := t.gnmiUpdate(noti); n != nil {
@@ -763,6 +783,11 @@ func (t *Target) generateMetaUpdates(clients func(*ctree.Leaf)) {
 		}
 		path := metadata.Path(value)
 		prev := t.t.GetLeafValue(path)
+		if _, ok := metaLeafValue(prev).(*pb.TypedValue_StringVal); !ok {
+			// Not a well-formed leaf of this type (it may have been written
+			// by a remote peer): regenerate it.
+			prev = nil
+		}
 		if prev == nil || prev.(*pb.Notification).Update[0].Val.Value.(*pb.TypedValue_StringVal).StringVal != v {
 			noti := metaNotiStr(t.name, value, v)
 			if n, _ := t.gnmiUpdate(noti); n != nil {
